@@ -846,14 +846,16 @@ fn env_in_token(token: &str) -> bool {
         return false;
     }
 
-    // do not expand env in a command substitution, e.g.:
+    // do not expand env in a word that is one command substitution (in a
+    // word with more in it, `$(a)$X$(b)`, the references outside the
+    // substitutions are expanded; those inside are skipped later), e.g.:
     // - echo $(echo '$HOME')
     // - VERSION=$(foobar -h | grep 'version: v' | awk '{print $NF}')
     let ptn_cmd_sub1 = format!(r"^{}=`.*`$", ptn_env_name);
     let ptn_cmd_sub2 = format!(r"^{}=\$\(.*\)$", ptn_env_name);
     if libs::re::re_contains(token, &ptn_cmd_sub1)
         || libs::re::re_contains(token, &ptn_cmd_sub2)
-        || libs::re::re_contains(token, r"^\$\(.+\)$")
+        || (token.starts_with("$(") && find_matching_paren(token, 1) == Some(token.len() - 1))
     {
         return false;
     }
